@@ -38,6 +38,24 @@ def gen_prog(rng, depth=0):
     return ["seeded", rng.choice(SEEDS + [None, None]), gen_prog(rng, depth + 1)]
 
 
+def prime(prior: int) -> None:
+    """put the process-wide generator into a prior state determined by `prior`; odd priors leave a
+    pending Box-Muller variate (has_gauss = 1), which a sloppy save/restore would lose"""
+    import numpy as np
+
+    np.random.seed(prior)
+    np.random.random(prior % 5)
+    if prior % 2 == 1:
+        np.random.normal()
+
+
+def full_state_key() -> bytes:
+    import numpy as np
+
+    st = np.random.get_state()
+    return st[1].tobytes() + repr((st[0], int(st[2]), int(st[3]), float(st[4]).hex())).encode()
+
+
 class _Fail(Exception):
     pass
 
@@ -51,14 +69,15 @@ def run_prog_impl(prog, prior_seed):
     for s in SEEDS:
         np.random.seed(s)
         ref[s] = [np.random.random() for _ in range(NDRAW)]
-    np.random.seed(prior_seed)
+    prime(prior_seed)
     st0 = np.random.get_state()
     ref[None] = [np.random.random() for _ in range(NDRAW)]
-    # states of the caller's generator after n draws
+    # states of the caller's generator after n draws (the FULL legacy state: key, position, and the
+    # pending Box-Muller variate `has_gauss` / `cached_gaussian`)
     states = []
     np.random.set_state(st0)
     for _ in range(NDRAW):
-        states.append(np.random.get_state()[1].tobytes() + bytes([np.random.get_state()[2] % 256]))
+        states.append(full_state_key())
         np.random.random()
     lookup = {}
     for o, vals in ref.items():
@@ -90,8 +109,7 @@ def run_prog_impl(prog, prior_seed):
         ex(prog)
     except _Fail:
         failed = True
-    st = np.random.get_state()
-    key = st[1].tobytes() + bytes([st[2] % 256])
+    key = full_state_key()
     g = [None, states.index(key)] if key in states else ["?", -1]
     return {"g": g, "out_vals": [v.hex() for v in out], "failed": failed, "lookup": lookup}
 
@@ -166,8 +184,7 @@ def snapshot(det) -> str:
 def gstate():
     import numpy as np
 
-    st = np.random.get_state()
-    return hashlib.sha256(st[1].tobytes() + str(st[2:]).encode()).hexdigest()
+    return hashlib.sha256(full_state_key()).hexdigest()
 
 
 def run_model_fixture(fx, seed, prior, fault_before=False):
@@ -185,7 +202,7 @@ def run_model_fixture(fx, seed, prior, fault_before=False):
     det.time, det.time_step, det.pipeline_count = 1.0, 1.0, 0
     prep(det)
     func = evaluate_reference(dotted)
-    np.random.seed(prior)
+    prime(prior)
     if fault_before:
         np.random.random(17)
     before = gstate()
@@ -237,8 +254,7 @@ def run_mode_case(case, prior):
         det = pyx.make_detector("CCD", 4, 5)
         pipe = stochastic_pipeline(case.get("own_seed"))
         kind = case["mode"]
-        np.random.seed(prior)
-        np.random.random(prior % 5)
+        prime(prior)
         before = gstate()
         err, hsh = None, None
         try:
@@ -308,7 +324,7 @@ def run_threads_case(case):
     for s in set(case["seeds"]):
         np.random.seed(s)
         ref[s] = [np.random.random() for _ in range(case["draws"])]
-    np.random.seed(case["prior"])
+    prime(case["prior"])
     before = gstate()
     outs = {}
 
